@@ -128,11 +128,7 @@ def run(ctx):
         B = an.of(F, nx[0])
         b = B.body
         be = b.back_edges()
-        writes = []
-        for bb in sorted(b.reachable):
-            for si, st in enumerate(b.stmts(bb)):
-                if st["k"] == "assign" and st["lhs"]["l"] == 1 and st["lhs"].get("p"):
-                    writes.append((bb, st["lhs"]["p"][1].get("n"), N(B.tb.rvalue(st["rv"], (bb, si), st))))
+        writes = [(bb, name, N(v)) for (bb, _si, name, v) in an.writes_through(B, 1)]
         selfv = deref(arg(1))
         es_i = fld(selfv, itf["entry_size"]["i"])
         ok = len(be) == 1 and len(writes) == 2
